@@ -135,25 +135,8 @@ def check(ctx):
     from ..taskmodel import check_registry
     if isinstance(key, str):
         check_registry(ctx, repo, "R1", pump_key=key, only=("isolation",))
-    awaited = []
-    if heads:
-        body = g.loop_body(heads[0])
-        for n in body:
-            if n.suspends:
-                for c in n.calls():
-                    if receiver(c) == "self":
-                        awaited.append((n, c))
-    ctx.floor("R1", "awaited manager calls in the driver loop", len(awaited), 2)
-    for n, c in awaited:
-        nm = call_name(c)
-        ok = contained(pump, c)
-        if not ok:
-            callee = repo.method(MAN, nm, required=False)
-            ok = callee is not None and whole_body_contained(callee)
-        ctx.ob("R1", f"{pump.qual}::await-{nm}::contained", ok,
-               f"{pump.qual}: an exception raised by `await self.{nm}(...)` (L{n.lineno}) is neither caught in the loop nor inside {nm}: it terminates the driver task for good and nothing ever reconnects "
-               f"(e.g. GeckoAsyncSpa._connect dereferences self._protocol, which a concurrent reset sets to None)",
-               loc(pump, n.ast), sample={"rule": "R1", "driver": pump.qual, "await": nm, "contained": ok})
+    # containment is decided on the manager model (below, with the recovery chain): an exception injected into the
+    # driver's locate / connect call either ends the driver task or is survived - however the loop is written
     # cancellation still propagates
     for t in walk_no_nested(pump.node):
         if isinstance(t, ast.Try):
@@ -164,42 +147,106 @@ def check(ctx):
                            f"{pump.qual}: handler `except {tn}` swallows cancellation (the driver could not be stopped on exit)", loc(pump, h))
 
     # ---- R2 chain ------------------------------------------------------------------
+    # by interpretation on the manager model (vlib/managermodel.py): the switch's behaviour for every state x event, and
+    # one round of the driver from every state x (descriptors, identifier, facade) situation - whatever the switch and the
+    # driver look like (an if/elif ladder, a table of transition records, a list of steps)
     he = repo.method(MAN, "_handle_event")
-    gh, rows = rows_of(he)
-    state_rows = [r for r in rows if r.kind == "state"]
-    err_states = sorted({r.value for r in state_rows if isinstance(r.value, str) and r.value.startswith("ERROR_")})
+    from ..absint import BoundMethod, PyRaise, Undecided
+    from ..managermodel import Manager, lifecycle_relation
+    rel, states, events, _m0 = lifecycle_relation(repo)
+    err_states = sorted({o["final"] for o in rel.values() if isinstance(o.get("final"), str) and o["final"].startswith("ERROR_")})
     ctx.floor("R2", "error states assigned by the switch", len(err_states), 3)
-    reset_rows = [r for r in rows if r.kind == "call" and r.value == "async_reset"]
-    healed = set()
-    for r in reset_rows:
-        if "RUNNING_PING_RECEIVED" in r.events:
-            healed |= r.req_states
-    ctx.ob("R2", "ping-received::reset-row", bool(healed), "no row resets the manager when a ping is received in an error state: a manager in an error state never reconnects", he.loc,
+    healed = {s for s in states if s.startswith("ERROR_") and all(rel[(s, fac, "RUNNING_PING_RECEIVED")].get("final") == "IDLE" and "raises" not in rel[(s, fac, "RUNNING_PING_RECEIVED")]
+                                                                 for fac in (True, False))}
+    ctx.ob("R2", "ping-received::reset-row", bool(healed), "no error state is left (for IDLE, through a reset) when a ping is received: a manager in an error state never reconnects", he.loc,
            sample={"rule": "R2", "ping_received_resets_from": sorted(healed)})
-    # pump triggers
-    triggers = {}
-    for n, c in awaited:
-        req, _ = state_guards(g.iter_guard_atoms(n))
-        triggers[call_name(c)] = (req, g.iter_guard_atoms(n))
-    pump_states = set()
-    for req, _ in triggers.values():
-        pump_states |= req
+
+    def driver_round(state, descriptors, identifier, facade):
+        """one round of the driver loop on the manager model -> names of the manager methods it awaited"""
+        m = Manager(repo, kwargs={"spa_identifier": identifier, "spa_name": "My spa", "spa_address": None})
+        m.put(state, facade=facade, spa=False, descriptors=descriptors)
+        called = []
+
+        def hook(it_, node, callee, args, kwargs):
+            nm = getattr(callee, "name", "")
+            if nm == "asyncio.sleep":
+                raise PyRaise("asyncio.CancelledError", node)   # the round is over: stop the driver here
+            if isinstance(callee, BoundMethod) and callee.obj is m.obj and callee.fi.is_async and not callee.fi.name.startswith("_"):
+                called.append(callee.fi.name)   # the manager's public operations are not run, only noted
+                return None
+            return m._hook(it_, node, callee, args, kwargs)
+        m.it.call_hook = hook
+        try:
+            m.it.steps = 0
+            m.it.call(pump, m.obj, [])
+        except PyRaise as e:
+            if "CancelledError" not in e.what:
+                called.append(f"raises {e.what}")
+        except Undecided as e:
+            raise AnalysisError(f"{pump.qual} on the manager model ({state}): {e}")
+        return called
+    def driver_survives(state, descriptors, identifier, facade, victim):
+        """the driver's round from the given situation when `victim` (a manager method it awaits) raises OSError"""
+        m = Manager(repo, kwargs={"spa_identifier": identifier, "spa_name": "My spa", "spa_address": None})
+        m.put(state, facade=facade, spa=False, descriptors=descriptors)
+        hit = []
+
+        def hook(it_, node, callee, args, kwargs):
+            nm = getattr(callee, "name", "")
+            if nm == "asyncio.sleep":
+                raise PyRaise("asyncio.CancelledError", node)
+            if isinstance(callee, BoundMethod) and callee.obj is m.obj and callee.fi.is_async and not callee.fi.name.startswith("_"):
+                if callee.fi.name == victim:
+                    hit.append(victim)
+                    raise PyRaise("OSError: [Errno 101] Network is unreachable (injected)", node)
+                return None
+            return m._hook(it_, node, callee, args, kwargs)
+        m.it.call_hook = hook
+        try:
+            m.it.steps = 0
+            m.it.call(pump, m.obj, [])
+        except PyRaise as e:
+            return bool(hit), "CancelledError" in e.what
+        except Undecided as e:
+            raise AnalysisError(f"{pump.qual} on the manager model ({state}, {victim} failing): {e}")
+        return bool(hit), True
+    for nm, sit in (("async_locate_spas", ("IDLE", False, "SPA-ID", False)), ("async_connect", ("LOCATED_SPAS", True, "SPA-ID", False))):
+        reached, survived = driver_survives(*sit, nm)
+        callee = repo.method(MAN, nm, required=False)
+        ok = reached and (survived or (callee is not None and whole_body_contained(callee)))
+        ctx.ob("R1", f"{pump.qual}::await-{nm}::contained", ok,
+               f"{pump.qual}: an exception raised by `await self.{nm}(...)` " + ("" if reached else "(the call was not reached from its trigger situation) ") +
+               f"is neither caught in the loop nor inside {nm}: it terminates the driver task for good and nothing ever reconnects "
+               f"(e.g. GeckoAsyncSpa._connect dereferences self._protocol, which a concurrent reset sets to None)",
+               pump.loc, sample={"rule": "R1", "driver": pump.qual, "await": nm, "contained": ok})
+    rounds = {}
+    for s_ in states:
+        for d_ in (False, True):
+            for i_ in (None, "SPA-ID"):
+                for f_ in (False, True):
+                    rounds[(s_, d_, i_, f_)] = driver_round(s_, d_, i_, f_)
+    ctx.count("R2:driver rounds interpreted", len(rounds))
+    ctx.floor("R2", "driver rounds interpreted", len(rounds), 64)
+    pump_states = {k[0] for k, v in rounds.items() if any(x in ("async_locate_spas", "async_connect", "async_reset", "async_connect_to_spa") for x in v)}
+    ctx.extra["driver_rounds"] = {f"{k[0]}/{'desc' if k[1] else 'nodesc'}/{k[2]}/{'facade' if k[3] else 'nofacade'}": v for k, v in rounds.items() if v}
     for s in err_states:
         ok = s in healed or s in pump_states
         ctx.ob("R2", f"error-state::{s}::has-recovery-edge", ok,
                f"state {s} is entered by the switch but neither the ping-received reset row ({sorted(healed)}) nor a driver trigger ({sorted(pump_states)}) ever leaves it: only a user reset recovers",
                he.loc)
-    # (b)
-    loc_req, loc_facts = triggers.get("async_locate_spas", (set(), set()))
-    ctx.ob("R2", "driver::locate-trigger", loc_req == {"IDLE"} and ("self._spa_descriptors is None", True) in loc_facts,
-           f"driver does not locate from (IDLE, descriptors None): trigger {sorted(loc_req)} {sorted(t for t, p in loc_facts if p)}", pump.loc)
-    # (c)
-    con_req, con_facts = triggers.get("async_connect", (set(), set()))
-    ok = con_req == {"LOCATED_SPAS"} and ("self._spa_identifier is None", False) in con_facts and ("self._facade is None", True) in con_facts
-    ctx.ob("R2", "driver::connect-trigger", ok, f"driver does not connect from (LOCATED_SPAS, identifier set, no facade): {sorted(con_req)} {sorted(map(str, con_facts))}", pump.loc)
-    fin = [r for r in state_rows if r.events == {"LOCATING_FINISHED"}]
-    ctx.ob("R2", "LOCATING_FINISHED->LOCATED_SPAS", len(fin) == 1 and fin[0].value == "LOCATED_SPAS" and not fin[0].req_states,
-           "LOCATING_FINISHED does not unconditionally produce LOCATED_SPAS", he.loc)
+    # (b) the driver locates exactly from (IDLE, no descriptors)
+    loc_from = sorted((k for k, v in rounds.items() if "async_locate_spas" in v), key=str)
+    want_loc = sorted((k for k in rounds if k[0] == "IDLE" and not k[1]), key=str)
+    ctx.ob("R2", "driver::locate-trigger", loc_from == want_loc,
+           f"the driver calls async_locate_spas from {[(k[0], 'descriptors' if k[1] else 'no descriptors') for k in loc_from][:6]}, expected exactly from (IDLE, no descriptors)", pump.loc)
+    # (c) ... and connects exactly from (LOCATED_SPAS, identifier set, no facade)
+    con_from = sorted((k for k, v in rounds.items() if "async_connect" in v), key=str)
+    want_con = sorted((k for k in rounds if k[0] == "LOCATED_SPAS" and k[2] is not None and not k[3]), key=str)
+    ctx.ob("R2", "driver::connect-trigger", con_from == want_con,
+           f"the driver calls async_connect from {[(k[0], k[2], 'facade' if k[3] else 'no facade') for k in con_from][:6]}, expected exactly from (LOCATED_SPAS, identifier set, no facade)", pump.loc)
+    fin_bad = sorted({s_ for s_ in states for fac in (True, False) if rel[(s_, fac, "LOCATING_FINISHED")].get("final") != "LOCATED_SPAS"})
+    ctx.ob("R2", "LOCATING_FINISHED->LOCATED_SPAS", not fin_bad,
+           f"LOCATING_FINISHED does not produce LOCATED_SPAS from {fin_bad[:4]}", he.loc)
     # (d) async_connect reaches async_connect_to_spa which raises CONNECTION_FINISHED
     ac = repo.method(MAN, "async_connect")
     reach = cg.reachable([ac], max_depth=3)
@@ -209,9 +256,15 @@ def check(ctx):
     ctx.ob("R2", "async_connect->async_locate_spas", id(als.node) in reach, "async_connect no longer locates first", ac.loc)
     # reset reaches IDLE + descriptors None: C08.I6 (re-checked here in short form)
     reset = repo.method(MAN, "async_reset")
-    txt = ast.unparse(reset.node)
-    ctx.ob("R2", "async_reset::lands-in-first-trigger", "self._spa_descriptors = None" in txt and "self._spa_state = GeckoSpaState.IDLE" in txt,
-           "async_reset does not produce (IDLE, descriptors None), the driver's first trigger", reset.loc)
+    _mr = Manager(repo).warm_up()
+    _mr.put("CONNECTED", facade=True, spa=True, descriptors=True)
+    try:
+        _mr.reset()
+        _after = (_mr.state(), _mr.it.getattr(_mr.obj, "_spa_descriptors"))
+    except PyRaise as e:
+        _after = (f"raises {e.what}", None)
+    ctx.ob("R2", "async_reset::lands-in-first-trigger", _after == ("IDLE", None) and bool(rounds.get(("IDLE", False, "SPA-ID", False))),
+           f"async_reset from CONNECTED leaves (state, descriptors) = {_after}: not (IDLE, None), the driver's first trigger", reset.loc)
 
     # (b') the reset must complete even though it runs inside the ping-loop task it cancels
     from .c10 import reset_survives_self_cancel
@@ -232,9 +285,9 @@ def check(ctx):
     # loop keeps running while open and pings with retry count 1
     gets = [(n, c) for n, c in calls_named(gp, "get") if receiver(c) == "self._protocol"]
     ctx.ob("R3", "_ping_loop::pings-every-iteration", len(gets) == 1 and gp.loop_of(gets[0][0]) is not None, "ping loop does not send one ping per iteration", pl.loc)
-    nores = [r for r in rows if r.kind == "state" and "RUNNING_PING_NO_RESPONSE" in r.events]
-    ok = len(nores) == 1 and nores[0].req_states == {"CONNECTED"} and str(nores[0].value).startswith("ERROR_")
-    ctx.ob("R3", "NO_RESPONSE::leaves-CONNECTED", ok, "the RUNNING_PING_NO_RESPONSE row does not move CONNECTED to an error state", he.loc)
+    _o = rel[("CONNECTED", True, "RUNNING_PING_NO_RESPONSE")]
+    ok = isinstance(_o.get("final"), str) and _o["final"].startswith("ERROR_") and "raises" not in _o
+    ctx.ob("R3", "NO_RESPONSE::leaves-CONNECTED", ok, f"RUNNING_PING_NO_RESPONSE in CONNECTED leaves the manager in {_o.get('final')}: not an error state, the loss is not reported", he.loc)
     con = repo.method("GeckoAsyncSpa", "_connect")
     from ..facts import connection_tasks
     started = any(t["coroutine"] == "_ping_loop" for t in connection_tasks(repo))   # _connect interpreted on a model event loop
